@@ -40,8 +40,15 @@ using namespace vh;
 namespace vh {
 typedef void NthFn();
 VH_ROB_MEMBER(NthTag, NotificationComponent, NthFn, NotificationTimerHandler)
-/* ApiListener::m_UpdatedObjectAuthority: false during the cold-start phase, in which requests are stashed */
-VH_ROB_STATIC(UoaTag, std::atomic<bool> *type, ApiListener, m_UpdatedObjectAuthority)
+/* ApiListener::m_UpdatedObjectAuthority: false during the cold-start phase, in which requests are stashed.  The member's
+ * type is deduced (any bool-assignable flag type will do), so only its name ties the harness to it. */
+template<typename Tag, auto M>
+struct RobAuto {
+	friend auto get(Tag) { return M; }
+};
+struct UoaTag { friend auto get(UoaTag); };
+template struct RobAuto<UoaTag, &ApiListener::m_UpdatedObjectAuthority>;
+static inline void SetAuthorityUpdated(bool v) { *get(UoaTag()) = v; }
 }
 
 static const char *const kCmdName = "c03-cmd";
@@ -252,7 +259,7 @@ static void Setup(const CaseCfg& c)
 	l_Now += 1000000; /* far from any earlier case */
 	SetNow((double)l_Now);
 	IcingaApplication::GetInstance()->SetEnableNotifications(true);
-	get(UoaTag())->store(true);
+	SetAuthorityUpdated(true);
 	std::string sfx = std::to_string(l_CaseNo);
 	l_W.isHost = c.kind == 'h';
 
@@ -905,7 +912,7 @@ static bool ExecLine(const char *line)
 	} else if (k == "B") {
 		/* B 0: cold start (object authority not updated yet: SendNotifications stashes), B 1: authority updated */
 		if (!need(1) || !ParseLL(w[1], a)) return false;
-		get(UoaTag())->store(a != 0);
+		SetAuthorityUpdated(a != 0);
 	} else if (k == "M") {
 		if (!need(1) || !ParseLL(w[1], a) || a < 1 || a > 10) return false;
 		l_W.obj->SetMaxCheckAttempts((int)a);
